@@ -36,7 +36,11 @@ Definition cmp_row (f : (Qc -> Qc -> bool) -> row -> row) (w : nat) (rw : row * 
   then (if ocells_eqb m (snd rw) then 0 else 1)%Z else 16%Z.
 
 Record pcase := { pc_t : qtable; pc_w : nat; pc_rows : list (row * list (option Z)) }.
-Definition run_pcase (c : pcase) : list Z := map (cmp_row (fun s => qmpe s (pc_t c)) (pc_w c)) (pc_rows c).
+(* rows whose evidence has probability zero are outside the positivity clause and every branch
+   comparison on them can be an exact 0 = 0 tie (the code then prefers a floored -1e31 to -inf): 32 *)
+Definition run_pcase (c : pcase) : list Z :=
+  map (fun rw => if Qc_eq_bool (qroot (pc_t c) (fst rw)) 0%Qc then 32%Z
+                 else cmp_row (fun s => qmpe s (pc_t c)) (pc_w c) rw) (pc_rows c).
 
 Record tcase := { tc_c : clt Qc; tc_w : nat; tc_rows : list (row * list (option Z)) }.
 Definition run_tcase (c : tcase) : list Z := map (cmp_row (fun s => qclt_mpe s (tc_c c)) (tc_w c)) (tc_rows c).
